@@ -35,6 +35,8 @@ def run_comp(res, tier, seed, replay, mode, inputs, types='double', clause_filte
             if not cl:
                 continue
             facts = {'event': call.get('e'), 'wt': call.get('wt'), 'clauses': cl, 'n': call.get('n'), 'edges': call.get('edges'), 'den': call.get('den')}
+            if call.get('ctx'):
+                facts['input_line'] = call['ctx']
             res.violation(facts, {'trace_segment': rj['segment'], 'spec': 'Trace_Comp'})
         return inputs
     finally:
@@ -75,6 +77,10 @@ def check_C16(res, tier, seed, replay):
         inputs.append((gens.rand_graph(rng, n, m, lambda: 1), 1))
     for n in (0, 1, 2, 7, 12):
         inputs.append(({'n': n, 'edges': []}, 1))          # empty and edgeless graphs
+    for core in (gens.cycle(3), gens.complete(4), gens.grid(2, 3), gens.union(gens.cycle(3), gens.cycle(4))):
+        for t in range(1, 7):
+            g = gens.with_tree_components(rng, core, t)
+            inputs.append((g, 1)); inputs.append((gens.permuted(rng, g), 1))
     for g in gens.families(rng, big=(tier != 'quick'))[::3]:
         inputs.append((gens.union(g, {'n': 3, 'edges': []}), 1))
     run_comp(res, tier, seed, replay, 'forest', inputs)
@@ -109,6 +115,13 @@ def check_C13(res, tier, seed, replay):
     for g in gens.families(rng, big=(tier != 'quick'))[::3]:
         inputs.append((gens.with_pendant(rng, g, 3), 1))
         inputs.append((gens.permuted(rng, g), 1))
+    # a cyclic core next to several separate tree components (single edges, paths, stars), every count 0..8
+    cores = [gens.cycle(3), gens.cycle(4), gens.complete(4), gens.wheel(5), gens.union(gens.cycle(3), gens.cycle(3)), gens.with_pendant(rng, gens.cycle(3), 2)]
+    for core in cores:
+        for t in range(0, 9):
+            for _ in range(2 if tier == 'quick' else 8):
+                g = gens.with_tree_components(rng, core, t)
+                inputs.append((g if rng.random() < 0.5 else gens.permuted(rng, g), 1))
     run_comp(res, tier, seed, replay, 'fvs', inputs)
     res.cov['distinct_nontrivial'] = len({canon(g) for g, _ in inputs if gens.csd(g) >= 1})
     res.cov['rule'] = 'greedy_fvs on every input; non-trivial = distinct graph containing a cycle'
